@@ -113,7 +113,8 @@ C08DPt == { [st |-> Stmt("delete", <<>>, AIn(AKey, PtListD(S)), <<>>, <<>>, Lim(
 (* c10: scalar functions and list / JSON indexing *)
 
 Comma == <<44>>
-Texts == { <<>>, a, <<65, 98>>, <<65, 66, 67>>, <<97, 44, 98, 44, 99>>, <<49, 50>>, <<45, 51>>, <<49, 46, 53>>, <<120, 32, 121>>, <<48, 55>>, <<49, 101, 51>> }
+Texts == { <<>>, a, <<65, 98>>, <<65, 66, 67>>, <<97, 44, 98, 44, 99>>, <<49, 50>>, <<45, 51>>, <<49, 46, 53>>, <<120, 32, 121>>, <<48, 55>>, <<49, 101, 51>>,
+           <<48,46,48,48,55,56,49,50,53>> }      \* 0.0078125 = 1/128: more decimals than a "%f" keeps
 Ints  == { AInt(0), AInt(1), AInt(2), AInt(3), AInt(7), AInt(12), ABin("-", AInt(0), AInt(3)) }
 Flts  == { AFlt(1, 1), AFlt(3, 1), AFlt(2, 0), AFlt(1, 2) }
 TArgs == { AStr(t) : t \in Texts }
@@ -398,7 +399,10 @@ C05Multi == {
   Select(<<F(AKey, "k"), F(AVal, "v")>>, ABin("&", ABin("&", ABin(">", KA, AStr(a)), ABin("<", KA, AStr(c2))), ABin("!=", KA, AStr(abc))), <<>>, <<>>, NoLim),
   Select(<<F(AKey, "k"), NV>>, ABin("&", ABin("&", ABin(">", AName("n"), AInt(0)), ABin("<", ABin("+", AName("n"), AInt(1)), AInt(9))), ABin("!=", ABin("*", AName("n"), AInt(2)), AInt(4))), <<>>, <<>>, NoLim),
   Select(<<F(AKey, "k"), F(Call1("sum", Call1("strlen", KA)), "s"), F(Call2("group_concat", Call1("upper", KA), AStr(<<44>>)), "g")>>, ABin("!=", KA, AStr(ab)), <<>>, <<1>>, NoLim),
-  Select(<<F(AVal, "v"), F(Call1("sum", Call1("strlen", AName("v"))), "s"), F(Call1("count", AInt(1)), "c")>>, ABin("^=", AName("v"), AStr(<<>>)), <<>>, <<1>>, NoLim) }
+  Select(<<F(AVal, "v"), F(Call1("sum", Call1("strlen", AName("v"))), "s"), F(Call1("count", AInt(1)), "c")>>, ABin("^=", AName("v"), AStr(<<>>)), <<>>, <<1>>, NoLim),
+  \* the name of an aggregate inside another aggregate field: each group its own value, in both modes, several groups per poll
+  Select(<<F(ACall("substr", <<AKey, AInt(0), AInt(1)>>), "p"), F(Call1("count", AInt(1)), "c"), F(ABin("+", Call1("sum", Call1("strlen", AKey)), AName("c")), "t")>>, All, <<>>, <<1>>, NoLim),
+  Select(<<F(AVal, "v"), F(Call1("count", AInt(1)), "c"), F(ABin("*", Call1("max", Call1("strlen", AKey)), AName("c")), "t"), F(ABin("-", AName("c"), Call1("min", Call1("strlen", AKey))), "u")>>, ABin("!=", AName("v"), AStr(<<120>>)), <<>>, <<1>>, NoLim) }
 C05Cases == { [st |-> st, sid |-> sid] : st \in C05Stmts \cup C05Multi \cup C05LitLeft, sid \in {"I", "S7", "S40", "E"} } \cup C05Pt
 
 -----------------------------------------------------------------------------
